@@ -137,11 +137,12 @@ class Harness:
             s.add(z3.Real('__E%d' % i) == e)
         return s.to_smt2()
 
-    def certify(self, name, lhs, rhs, relations, timeout=None, key=None, group=None, replay=None, hyps=()):
+    def certify(self, name, lhs, rhs, relations, timeout=None, key=None, group=None, replay=None, hyps=(), depends=()):
         """Equality modulo polynomial side relations (each relation term == 0), by untrusted sympy cofactors whose
         polynomial identity is then checked by z3 (in the worker, on the original terms) with no hypotheses.
         Non-polynomial goals and goals without certificate fall back to a direct solver query."""
         ob = Ob(name, list(hyps) + [r == 0 for r in relations], lhs == rhs, 'cert', timeout or (20 if self.quick else 60), replay, None, key, group)
+        ob.deps = list(depends)
         d = lhs - rhs
         ob.neg_margin = z3.Or(d > z3.RealVal('1/1000'), d < -z3.RealVal('1/1000'))
         if z3.is_true(z3.simplify(lhs == rhs)):
